@@ -692,6 +692,19 @@ func (s *Sim) PendingKeys() []string {
 	return out
 }
 
+// Busy reports whether any event other than a timer or a never-enabled placeholder is pending,
+// i.e. whether some activity of the system (a load, a lock hand-over, a spawn) is in progress.
+func (s *Sim) Busy() bool {
+	s.mu.Lock()
+	defer s.mu.Unlock()
+	for _, ev := range s.events {
+		if ev.Class != "timer" && ev.Class != "never" {
+			return true
+		}
+	}
+	return len(s.fresh) > 0
+}
+
 func (s *Sim) MaxEnabled() int { return s.concurrentEnabledMax }
 
 // ---------------------------------------------------------------------------------------------
